@@ -12,6 +12,8 @@ import S4V.Model.Gate
 import S4V.Model.SortDrain
 import S4V.Drv.Journal
 import S4V.Drv.Tmp
+import S4V.Drv.Walk
+import S4V.Drv.Print
 
 open S4V.Model S4V.Model.Wire
 
@@ -176,6 +178,18 @@ def stepSort : List String → String
     | _, _, _ => "bad-op"
   | _ => "bad-op"
 
+def stepProc : List String → String
+  | [bs, h, a, b] =>
+    match bs.toNat?, unhex h, optT a, optT b with
+    | some bs, some d, some a, some b =>
+      match Gate.gate Time.parseHead bs d with
+      | .ok =>
+        let ls := Syslines.linesFrom Time.parseHead d
+        "ok " ++ String.intercalate "," ((Syslines.streamAll ls false a b).map fun m => s!"{m.beg}-{m.fin}-{m.dt}")
+      | v => v.toString
+    | _, _, _, _ => "bad-op"
+  | _ => "bad-op"
+
 def step (line : String) : String :=
   match words line with
   | "path" :: rest => stepPath rest
@@ -184,9 +198,12 @@ def step (line : String) : String :=
   | "coord" :: rest => stepCoord rest
   | "sysl" :: rest => stepSysl rest
   | "gate" :: rest => stepGate rest
+  | "proc" :: rest => stepProc rest
   | "sort" :: rest => stepSort rest
   | "jrn" :: rest => S4V.Drv.stepJournal rest
   | "tmp" :: rest => S4V.Drv.stepTmp rest
+  | "walk" :: rest => S4V.Drv.Walk.stepWalk rest
+  | "prt" :: rest => S4V.Drv.Print.stepPrint rest
   | _ => "bad-op"
 
 partial def loop (h : IO.FS.Stream) (out : IO.FS.Stream) : IO Unit := do
